@@ -123,7 +123,7 @@ def build_observers(ctx, d, case):
 
 def state_of(d):
     st = _snap.dispatcher_state(d)
-    st.pop("subscribers")
+    st.pop("subscribers"); st.pop("configured_filter", None)
     return st
 
 
@@ -169,7 +169,22 @@ def run_twin(ctx, case):
     while not B.done():
         pol = case["policy"]
         o, m = B.choose(rng2, pol if pol != "mixed" else rng2.choice(gen.POLICIES))
-        A.dispatch(o, m); B.dispatch(o, m)
+        if case["seed"] % 6 in (1, 3) and A.d.available_operations() and B.d.available_operations():
+            # the built-in observer-based rule (one shared rule object) is asked on the reset
+            # dispatcher, that dispatcher moves on, then the fresh one - still in the state the
+            # other one was in - is asked: same state, same answer
+            from job_shop_lib.dispatching.rules import observer_based_most_work_remaining_rule as rule
+            ca = rule(A.d).operation_id
+            A.dispatch(o, m)
+            cb = rule(B.d).operation_id
+            B.dispatch(o, m)
+            ctx.count("rule_answers_compared_reset_vs_fresh")
+            if ca != cb:
+                ctx.violation("c12_rule_answer_differs_between_reset_and_fresh_dispatcher",
+                              {"reset": ca, "fresh": cb, "h1": h1, "h2": list(B.r.history)})
+                break
+        else:
+            A.dispatch(o, m); B.dispatch(o, m)
         traceA.append(state_of(A.d)); traceB.append(state_of(B.d))
     ctx.count("twin_pairs")
     ctx.count("trace_states_compared", len(traceB))
